@@ -403,7 +403,22 @@ def model_line_rw(start, stop, step, cont, max_iter, e1, table, esub):
     return " ".join(parts)
 
 
-def rw_case(rng):
+def rw_oracle(seed, s0, slope, wiggle, zeros):
+    """Deterministic synthetic field generator oracle: spacing -> (nbh, excess at max height, sized height)."""
+    import random as _r
+
+    def oracle(s):
+        r = _r.Random(hash((seed, s)))
+        nb = max(1, int(900.0 / (s * s)) + r.randint(0, 2))
+        e = slope * (s - s0) + wiggle * (r.random() - 0.5)
+        if zeros and r.random() < 0.02:
+            e = 0.0
+        return nb, e, round(r.uniform(60.0, 135.0), 3)
+
+    return oracle
+
+
+def rw_case_spec(rng):
     """A synthetic RowWise problem with dyadic spacings (float arithmetic on them is exact)."""
     start = rng.choice([4.0, 5.0, 6.5, 8.0])
     stop = start + rng.choice([2.0, 4.0, 8.0, 10.0])
@@ -412,20 +427,14 @@ def rw_case(rng):
     slope = rng.uniform(0.2, 3.0)
     wiggle = rng.choice([0.0, 0.0, 0.8, 3.0])      # non-monotone component
     seed = rng.randrange(1 << 30)
-
-    def oracle(s):
-        import random as _r
-
-        r = _r.Random(hash((seed, s)))
-        nb = max(1, int(900.0 / (s * s)) + r.randint(0, 2))
-        e = slope * (s - s0) + wiggle * (r.random() - 0.5)
-        if rng_zero and r.random() < 0.02:
-            e = 0.0
-        return nb, e, round(r.uniform(60.0, 135.0), 3)
-
-    rng_zero = rng.random() < 0.2
+    zeros = rng.random() < 0.2
     nmax = max(1, int(900.0 / (stop * stop)) + 2)
     th = rng.randint(0, nmax + 1)
     esub = [(1.0 if n < th else -1.0) * (0.5 + 0.01 * n) if rng.random() > 0.1 else rng.choice([-1.0, 1.0, 0.0]) for n in range(1, nmax + 1)]
     e1 = rng.choice([-0.5, 0.7, 0.7, 0.7, 0.0])
-    return start, stop, step, rng.random() < 0.4, rng.choice([10, 10, 3, 0]), e1, oracle, esub
+    return start, stop, step, rng.random() < 0.4, rng.choice([10, 10, 3, 0]), e1, (seed, s0, slope, wiggle, zeros), esub
+
+
+def rw_case(rng):
+    start, stop, step, cont, mi, e1, spec, esub = rw_case_spec(rng)
+    return start, stop, step, cont, mi, e1, rw_oracle(*spec), esub
